@@ -5,6 +5,7 @@ import (
 	"flag"
 	"fmt"
 	"os"
+	"os/exec"
 	"path/filepath"
 	"runtime"
 	"sort"
@@ -27,6 +28,7 @@ type Unit struct {
 	Tests           bool              `json:"tests"`
 	Native          []string          `json:"native_files"`
 	ParallelEntries int               `json:"parallel_entries"`
+	SQLSchema bool `json:"sql_schema"`
 }
 
 type checkOpts struct {
@@ -62,6 +64,15 @@ func runUnit(spec *Spec, o *checkOpts, openKnown map[string]bool, openList []Kno
 	}
 	ur.loadTime = time.Since(tLoad)
 
+	schemaPath := ""
+	if spec.SQLSchema {
+		p, err := dumpSchema(o.repo, o.verif, tmp)
+		if err != nil {
+			ur.broken = append(ur.broken, "schema dump: "+err.Error())
+			return ur
+		}
+		schemaPath = p
+	}
 	redirects := map[string]*ssa.Function{}
 	for from, to := range spec.Redirects {
 		f := l.harness.Func(to)
@@ -158,7 +169,7 @@ func runUnit(spec *Spec, o *checkOpts, openKnown map[string]bool, openList []Kno
 			defer func() { <-sem; wg.Done() }()
 			mk := func(probe string, kn map[string]bool) *sym.Program {
 				p := &sym.Program{Prog: l.prog, Harness: l.harness, Redirects: redirects, Params: cfg.Params, Known: kn, Probe: probe,
-					Unwind: cfg.Unwind, MaxSteps: cfg.MaxSteps, MaxDepth: 400, SolverBin: o.solverBin, SolverArg: []string{"-in"}, TimeoutMS: cfg.Timeout, FastTimeoutMS: 2000, Trace: o.trace, Logic: cfg.Logic}
+					Unwind: cfg.Unwind, MaxSteps: cfg.MaxSteps, MaxDepth: 400, SolverBin: o.solverBin, SolverArg: []string{"-in"}, TimeoutMS: cfg.Timeout, FastTimeoutMS: 2000, Trace: o.trace, Logic: cfg.Logic, SQLSchema: schemaPath}
 				if p.Unwind == 0 {
 					p.Unwind = 64
 				}
@@ -316,7 +327,7 @@ func runUnit(spec *Spec, o *checkOpts, openKnown map[string]bool, openList []Kno
 
 func unitSpec(spec *Spec, u *Unit) *Spec {
 	s := *spec
-	s.Package, s.Dir, s.Files, s.Entries, s.Redirects, s.Tests, s.Native, s.ParallelEntries = u.Package, u.Dir, u.Files, u.Entries, u.Redirects, u.Tests, u.Native, u.ParallelEntries
+	s.Package, s.Dir, s.Files, s.Entries, s.Redirects, s.Tests, s.Native, s.ParallelEntries, s.SQLSchema = u.Package, u.Dir, u.Files, u.Entries, u.Redirects, u.Tests, u.Native, u.ParallelEntries, u.SQLSchema
 	return &s
 }
 
@@ -351,7 +362,7 @@ func cmdCheck(args []string) int {
 		return 2
 	}
 	if len(spec.Units) == 0 {
-		spec.Units = []Unit{{Package: spec.Package, Dir: spec.Dir, Files: spec.Files, Entries: spec.Entries, Redirects: spec.Redirects, Tests: spec.Tests, Native: spec.Native, ParallelEntries: spec.ParallelEntries}}
+		spec.Units = []Unit{{Package: spec.Package, Dir: spec.Dir, Files: spec.Files, Entries: spec.Entries, Redirects: spec.Redirects, Tests: spec.Tests, Native: spec.Native, ParallelEntries: spec.ParallelEntries, SQLSchema: spec.SQLSchema}}
 	}
 	if o.workers <= 0 {
 		o.workers = runtime.NumCPU()
@@ -464,4 +475,22 @@ func cmdCheck(args []string) int {
 		os.WriteFile(filepath.Join(o.verif, "evidence", spec.Property+".json"), b, 0o644)
 	}
 	return exit
+}
+
+// dumpSchema runs the repository's real migrations on a scratch SQLite database
+// (through an overlaid test in package sqlite) and returns the file holding the
+// resulting CREATE statements.
+func dumpSchema(repo, verif, tmp string) (string, error) {
+	out := filepath.Join(tmp, "schema.sql")
+	ov := map[string]map[string]string{"Replace": {filepath.Join(repo, "internal/storage/database/sqlite/zz_verif_dump_test.go"): filepath.Join(verif, "harness/sqlschema/dump_test.go")}}
+	ovPath := filepath.Join(tmp, "schema-overlay.json")
+	b, _ := json.Marshal(ov)
+	os.WriteFile(ovPath, b, 0o644)
+	cmd := exec.Command(filepath.Join(goBin, "go"), "test", "-vet=off", "-count=1", "-overlay", ovPath, "-run", "^TestVerifDumpSchema$", "./internal/storage/database/sqlite/")
+	cmd.Dir = repo
+	cmd.Env = append(goEnv(), "VERIF_SCHEMA_OUT="+out)
+	if outb, err := cmd.CombinedOutput(); err != nil {
+		return "", fmt.Errorf("%v: %s", err, tail(string(outb), 600))
+	}
+	return out, nil
 }
